@@ -1,6 +1,7 @@
 import RdsProofs.TransGroupsBase
 import RdsProofs.TransGroupsText
 import RdsProofs.TransGroupsRt
+import RdsProofs.TransUtils
 /-!
 # RdsProofs.TransGroups — the translated group handlers, `rdsparser_parser_process` and the public API
 refine the hand-written model
@@ -9,6 +10,8 @@ refine the hand-written model
 
 * `ecc_lookup_refines` (in `TransGroupsBase.lean`) — `rdsparser_ecc_lookup` = `eccLookup (cfgC u)`;
 * `process_refines` — `rdsparser_parser_process` = `process (cfgC u)` (state, callback log, invariant);
+* `parse_string_refines` — `rdsparser_parse_string` (NULL, or a C string through `rdsparser_utils_convert`, see
+  `TransUtils.lean`) = `step (cfgC u) · (.parseString s)`, including the boolean result;
 * `cstep_refines` — every translated public API call = `step (cfgC u)`;
 * `crun_refines` — every history of translated API calls: the C state denotes exactly the model state.
 
@@ -128,14 +131,80 @@ theorem process_refines (u : Bool) (r : C_librdsparser) (hI : CInv r) (g : Group
   rw [e]
   exact s2
 
+/-! ## `rdsparser_parse_string` -/
+
+/-- the argument of `rdsparser_parse_string` as the translated function receives it: NULL, or the bytes of the C string -/
+def cstrArg (s : Option (List Nat)) : Option (List Int) := s.map (List.map Int.ofNat)
+
+/-- a group accepted by `utilsConvert` is within the C API's ranges -/
+theorem tg_convert_bounded (bytes : List Nat) (g : Group) (h : utilsConvert bytes = some g) : g.Bounded := by
+  unfold utilsConvert at h
+  split at h
+  · split at h
+    · rename_i a b c d e ha hb hc hd he
+      injection h with h
+      subst h
+      have l4 : ∀ (l : List Nat), (l.take 4).length ≤ 4 := fun l => by rw [List.length_take]; omega
+      have bd : ∀ (l : List Nat) (v : Nat), hexNum? (l.take 4) = some v → v < 65536 := by
+        intro l v hv
+        have h1 := (tu_hexNum_some _ _ hv).2.2
+        have h2 : 16 ^ (l.take 4).length ≤ 16 ^ 4 := Nat.pow_le_pow_right (by decide) (l4 l)
+        have h3 : (16 : Nat) ^ 4 = 65536 := by decide
+        omega
+      exact ⟨bd _ _ ha, bd _ _ hb, bd _ _ hc, bd _ _ hd, (by show e / 64 % 4 < 256; omega),
+        (by show e / 16 % 4 < 256; omega), (by show e / 4 % 4 < 256; omega), (by show e % 4 < 256; omega)⟩
+    · exact absurd h (by simp)
+  · exact absurd h (by simp)
+
+/-- `rdsparser_parse_string`: the translated function IS the model's `step · (.parseString s)` — state, callbacks,
+invariant and the boolean result -/
+theorem parse_string_refines (u : Bool) (r : C_librdsparser) (hI : CInv r) (s : Option (List Nat))
+    (hs : Op.Bounded (.parseString s)) (log : CLog) :
+    abs (c_rdsparser_parse_string u r (cstrArg s) log).2.1 = (step (cfgC u) (abs r) (.parseString s)).1 ∧
+    absLog (c_rdsparser_parse_string u r (cstrArg s) log).2.2 =
+      absLog log ++ (step (cfgC u) (abs r) (.parseString s)).2.1 ∧
+    CInv (c_rdsparser_parse_string u r (cstrArg s) log).2.1 ∧
+    (c_rdsparser_parse_string u r (cstrArg s) log).1 = b2i (step (cfgC u) (abs r) (.parseString s)).2.2 := by
+  cases s with
+  | none => exact ⟨rfl, (List.append_nil _).symm, hI, rfl⟩
+  | some bytes =>
+    have hb : ∀ b ∈ bytes, 1 ≤ b ∧ b < 256 := hs
+    obtain ⟨hiff, hsome⟩ := utils_convert_refines bytes hb (List.replicate 4 0) (List.replicate 4 0) rfl rfl
+    cases hu : utilsConvert bytes with
+    | none =>
+      have h0 := hiff.2 hu
+      have e : c_rdsparser_parse_string u r (cstrArg (some bytes)) log = (0, r, log) := by
+        unfold c_rdsparser_parse_string cstrArg
+        simp only [Option.map_some, Option.isSome_some, if_true, Option.getD_some, h0, bne_self_eq_false,
+          Bool.false_eq_true, if_false]
+      have hm : step (cfgC u) (abs r) (.parseString (some bytes)) = (abs r, [], false) := by
+        simp only [step, hu]
+      rw [e, hm]
+      exact ⟨rfl, (List.append_nil _).symm, hI, rfl⟩
+    | some g =>
+      have hc := hsome g hu
+      have hg := tg_convert_bounded bytes g hu
+      obtain ⟨p1, p2, p3⟩ := process_refines u r hI g hg log
+      have e : c_rdsparser_parse_string u r (cstrArg (some bytes)) log =
+          (1, (c_rdsparser_parser_process u r (dataOf g) (errorsOf g) log).1,
+            (c_rdsparser_parser_process u r (dataOf g) (errorsOf g) log).2) := by
+        unfold c_rdsparser_parse_string cstrArg
+        simp only [Option.map_some, Option.isSome_some, if_true, Option.getD_some, hc]
+        rfl
+      have hm : step (cfgC u) (abs r) (.parseString (some bytes)) =
+          ((process (cfgC u) (abs r) g).1, (process (cfgC u) (abs r) g).2, true) := by
+        simp only [step, hu]
+      rw [e, hm]
+      exact ⟨p1, p2, p3, rfl⟩
+
 /-! ## the public API -/
 
-/-- the translated public API as one step function (`parse_string` is not translated: libc) -/
+/-- the translated public API as one step function -/
 def cstep (u : Bool) (r : C_librdsparser) : Op → C_librdsparser × CLog
   | .init => (c_rdsparser_init r, [])
   | .clear => (c_rdsparser_clear r, [])
   | .parse g => c_rdsparser_parse u r (dataOf g) (errorsOf g) []
-  | .parseString _ => (r, [])
+  | .parseString s => ((c_rdsparser_parse_string u r (cstrArg s) []).2.1, (c_rdsparser_parse_string u r (cstrArg s) []).2.2)
   | .setExt v => (c_rdsparser_set_extended_check r (b2i v), [])
   | .setCorr t k v => (c_rdsparser_set_text_correction r (textIdx t) (typeIdx k) (v : Int), [])
   | .setProg t v => (c_rdsparser_set_text_progressive r (textIdx t) (b2i v), [])
@@ -143,10 +212,10 @@ def cstep (u : Bool) (r : C_librdsparser) : Op → C_librdsparser × CLog
   | .userData n => (c_rdsparser_set_user_data r (n : Int), [])
   | .getters => (r, [])
 
-/-- ops of the translated fragment within the C API's argument ranges -/
-def Op.Translatable : Op → Prop
-  | .parseString _ => False
-  | op => op.Bounded        -- `Op.Bounded` is in RdsSpec/Statements.lean
+/-- ops of the translated fragment within the C API's argument ranges: every op of the public API, with
+`Op.Bounded` (RdsSpec/Statements.lean) — 16-bit blocks, 8-bit error levels and thresholds, and for `parseString`
+NULL or a C string (every byte 1..255) -/
+def Op.Translatable (op : Op) : Prop := op.Bounded
 
 theorem cstep_refines (u : Bool) (r : C_librdsparser) (hI : CInv r) (op : Op) (hop : Op.Translatable op) :
     abs (cstep u r op).1 = (step (cfgC u) (abs r) op).1 ∧
@@ -161,7 +230,9 @@ theorem cstep_refines (u : Bool) (r : C_librdsparser) (hI : CInv r) (op : Op) (h
         (process (cfgC u) (abs r) g).2 := by
       rw [h2]; exact List.nil_append _
     exact ⟨h1, h2', h3⟩
-  | parseString s => exact absurd hop (by simp [Op.Translatable])
+  | parseString s =>
+    obtain ⟨h1, h2, h3, _⟩ := parse_string_refines u r hI s hop []
+    exact ⟨h1, h2.trans (List.nil_append _), h3⟩
   | setExt v => exact ⟨(set_extended_check_refines r hI v).1, rfl, (set_extended_check_refines r hI v).2⟩
   | setCorr t k v =>
     have hv : v < 256 := hop
@@ -200,5 +271,6 @@ end RDS.C
 
 #print axioms RDS.C.ecc_lookup_refines
 #print axioms RDS.C.process_refines
+#print axioms RDS.C.parse_string_refines
 #print axioms RDS.C.cstep_refines
 #print axioms RDS.C.crun_refines
